@@ -246,7 +246,13 @@ pub struct PeerView {
 
 /// Harness around the real [`TransportManager`] with one scripted transport.
 pub struct ManagerHarness {
-    manager: TransportManager,
+    /// A `TransportManager::next()` call that suspended in the middle of a handler (on a full
+    /// protocol inbox) and is kept alive until it completes. Declared before `manager`: it
+    /// borrows the manager and must be dropped first.
+    inflight: Option<Pin<Box<dyn Future<Output = Option<TransportEvent>>>>>,
+    /// Keep a suspended `next()` call in flight instead of dropping it (see `keep_suspended`).
+    keep: bool,
+    manager: Box<TransportManager>,
     shared: Arc<Mutex<Shared>>,
     /// Second scripted transport (registered as WebSocket), see [`ManagerHarness::new_two`].
     shared_ws: Option<Arc<Mutex<Shared>>>,
@@ -293,7 +299,7 @@ impl ManagerHarness {
             manager.register_listen_address(address);
         }
         let local = manager.verif_local_peer_id();
-        Self { manager, shared, shared_ws: None, services, local, filler: None }
+        Self { inflight: None, keep: false, manager: Box::new(manager), shared, shared_ws: None, services, local, filler: None }
     }
 
     /// Like [`ManagerHarness::new`] with a second scripted transport registered as WebSocket:
@@ -341,7 +347,7 @@ impl ManagerHarness {
             manager.register_listen_address(address);
         }
         let local = manager.verif_local_peer_id();
-        Self { manager, shared, shared_ws: Some(shared_ws), services, local, filler: None }
+        Self { inflight: None, keep: false, manager: Box::new(manager), shared, shared_ws: Some(shared_ws), services, local, filler: None }
     }
 
     /// Number of scripted transports (1 or 2).
@@ -363,6 +369,7 @@ impl ManagerHarness {
 
     /// `TransportManager::dial` (the call behind `Litep2p::dial`).
     pub fn dial(&mut self, peer: PeerId) -> Result<(), String> {
+        assert!(self.inflight.is_none(), "manager call in flight");
         self.manager
             .dial(peer)
             .now_or_never()
@@ -372,6 +379,7 @@ impl ManagerHarness {
 
     /// `TransportManager::dial_address` (the call behind `Litep2p::dial_address`).
     pub fn dial_address(&mut self, address: Multiaddr) -> Result<(), String> {
+        assert!(self.inflight.is_none(), "manager call in flight");
         self.manager
             .dial_address(address)
             .now_or_never()
@@ -381,6 +389,7 @@ impl ManagerHarness {
 
     /// `TransportManager::add_known_address`.
     pub fn add_known_address(&mut self, peer: PeerId, addresses: Vec<Multiaddr>) -> usize {
+        assert!(self.inflight.is_none(), "manager call in flight");
         self.manager.add_known_address(peer, addresses.into_iter())
     }
 
@@ -470,6 +479,7 @@ impl ManagerHarness {
 
     /// [`ManagerHarness::inject_pending_inbound`] on transport `tr`.
     pub fn inject_pending_inbound_on(&mut self, tr: usize) -> usize {
+        assert!(self.inflight.is_none(), "manager call in flight");
         let cid = self.manager.verif_next_connection_id().verif_as_usize();
         self.shared_of(tr).lock().pending_inbound.insert(cid);
         self.push_on(tr, TransportEvent::PendingInboundConnection { connection_id: ConnectionId::from(cid) });
@@ -500,18 +510,53 @@ impl ManagerHarness {
 
     /// A connection task reports that connection `cid` of `peer` closed.
     pub fn connection_closed(&mut self, peer: PeerId, cid: usize) {
+        assert!(self.inflight.is_none(), "manager call in flight");
         let tx = self.manager.verif_event_tx();
         tx.try_send(TransportManagerEvent::ConnectionClosed { peer, connection: ConnectionId::from(cid) })
             .expect("manager event channel has room");
+    }
+
+    /// While set, a `next()` call that returns `Pending` is kept alive and polled again by the
+    /// following `step()` calls (the manager may be suspended in the middle of a handler, e.g.
+    /// on a full protocol inbox; dropping the call there would lose what it still has to do).
+    /// Clearing the flag drops a call that is still in flight. No other manager method may be
+    /// used while a call is in flight.
+    pub fn keep_suspended(&mut self, keep: bool) {
+        self.keep = keep;
+        if !keep {
+            self.inflight = None;
+        }
+    }
+
+    /// Whether a suspended `next()` call is being kept alive.
+    pub fn suspended(&self) -> bool {
+        self.inflight.is_some()
     }
 
     /// Poll the manager loop once. `None` means the loop is waiting for input.
     pub fn step(&mut self) -> Option<MgrEvent> {
         let waker = futures::task::noop_waker();
         let mut cx = Context::from_waker(&waker);
-        let mut fut = Box::pin(self.manager.next());
+        let mut fut = match self.inflight.take() {
+            Some(fut) => fut,
+            None => {
+                let manager: *mut TransportManager = &mut *self.manager;
+                // SAFETY: the manager is boxed (stable address), the future is stored in
+                // `inflight`, which is dropped before `manager`, and while it exists the harness
+                // only polls it (every other method that touches the manager asserts that no
+                // call is in flight).
+                let fut: Pin<Box<dyn Future<Output = Option<TransportEvent>> + '_>> =
+                    Box::pin(unsafe { &mut *manager }.next());
+                unsafe { std::mem::transmute(fut) }
+            }
+        };
         match fut.as_mut().poll(&mut cx) {
-            Poll::Pending => None,
+            Poll::Pending => {
+                if self.keep {
+                    self.inflight = Some(fut);
+                }
+                None
+            }
             Poll::Ready(None) => Some(MgrEvent::Terminated),
             Poll::Ready(Some(event)) => Some(match event {
                 TransportEvent::ConnectionEstablished { peer, endpoint } => MgrEvent::Established {
@@ -552,6 +597,7 @@ impl ManagerHarness {
     /// else uses) until it is full. Returns the number of filler events queued; they are skipped
     /// by [`ManagerHarness::protocol_events`].
     pub fn fill_protocol_inbox(&mut self, proto: usize) -> usize {
+        assert!(self.inflight.is_none(), "manager call in flight");
         let name = ProtocolName::from(format!("/verif/{proto}"));
         let Some(tx) = self.manager.verif_protocol_tx(&name) else { return 0 };
         let filler = *self.filler.get_or_insert_with(PeerId::random);
@@ -594,21 +640,25 @@ impl ManagerHarness {
 
     /// State of `peer` in the manager.
     pub fn peer_view(&self, peer: &PeerId) -> PeerView {
+        assert!(self.inflight.is_none(), "manager call in flight");
         self.manager.verif_peer_view(peer)
     }
 
     /// `(address, score)` of every address stored for `peer`.
     pub fn addresses(&self, peer: &PeerId) -> Vec<(Multiaddr, i32)> {
+        assert!(self.inflight.is_none(), "manager call in flight");
         self.manager.verif_addresses(peer)
     }
 
     /// `pending_connections` as `(connection id, peer)`.
     pub fn pending_connections(&self) -> Vec<(usize, PeerId)> {
+        assert!(self.inflight.is_none(), "manager call in flight");
         self.manager.verif_pending_connections()
     }
 
     /// Connection ids counted against the (incoming, outgoing) limits.
     pub fn limits(&self) -> (Vec<usize>, Vec<usize>) {
+        assert!(self.inflight.is_none(), "manager call in flight");
         self.manager.verif_limits()
     }
 
